@@ -54,7 +54,9 @@ def run(oc, tier, seed):
                "previous) of length <= %d, %d random decorations each: every title line, later header line, section header, "
                "in-block comment and item carries its own tags, links, properties (with keys shared across scopes), digits-only "
                "tags and dates; every header carries 2-4 decorations and every section 1-2 blocks; compared per note: tags, links, properties, create date (spec) and all "
-               "fields against the listener model; non-trivial = skeleton has >= 2 headers" % (maxlen, reps))
+               "fields against the listener model; plus the abstract pages of the page theorem (shared tag names across scopes, "
+               "sections nested to H4): valid_pageb holds, tree_of_page == the ANTLR tree, spec_page == the compiled notes; "
+               "non-trivial = skeleton has >= 2 headers" % (maxlen, reps))
     pages, sks = [], []
     for n in range(0, maxlen + 1):
         for sk in pagegen.all_skeletons(n):
@@ -85,6 +87,12 @@ def run(oc, tier, seed):
         if not ok:
             break
     oc.exhaustive = True
+    # the domain of the page theorem (C02_scoping_on_pages): hypothesis, parse tree, compiled notes
+    if not any(f[3] is None for f in oc.spec_fail) and not oc.corr_mismatch:
+        from harness import pagetie
+        pool2 = lib.pool()
+        pagetie.run(eng, pool2, rng, oc, 120 if tier == "quick" else 3000, TODAY, "C02")
+        pool2.close()
     eng.close()
 
 
